@@ -190,7 +190,7 @@ def explore_condition(pool, cond, tier, nworkers, log):
     budget = cond.budget[tier]
     t0 = time.time()
     want_replay = "all" if tier == "thorough" else "some"
-    log_queries = False
+    log_queries = tier == "thorough"
     total = None
     pending = collections.deque([[]])
     inflight = []
@@ -224,6 +224,17 @@ def explore_condition(pool, cond, tier, nworkers, log):
             total = _merge(total, res)
     total = total or _merge(None, None)
     total["unexplored"] = len(pending)
+    if log_queries and total["smt2"]:
+        from pverif import second
+        res = pool.map(second.redecide, total["smt2"][:40])
+        agree = sum(1 for _, r, _ in res if r == "unsat")
+        unknown = sum(1 for _, r, _ in res if r == "unknown" or r.startswith("error"))
+        disagree = [lab for lab, r, _ in res if r == "sat"]
+        total["second_solver"] = {"solver": "cvc5 (python wheel)", "queries": len(res), "agree_unsat": agree, "unknown_or_error": unknown,
+                                  "disagree": len(disagree), "time_s": round(sum(t for _, _, t in res), 2)}
+        for lab in disagree[:3]:
+            total["errors"].append("second solver (cvc5) answers sat for an obligation z3 discharged: %s" % lab)
+    total["smt2"] = []
     total["wall_s"] = time.time() - t0
     return total
 
